@@ -155,15 +155,15 @@ variable (σ : Mapper) (req : Request) (es : Entities)
 
 /-- policy-level agreement for a (static or template-linked) policy of the fragment, a partial store completed by `es`
     and a possibly residual context; the second pass runs on the substituted store `es` (as `reauthorize` documents) -/
-theorem policyAgrees_of_frag3 (hctx : (Value.record req.context).Canon) (hstore : StoreCanon es)
-    (preq : PRequest) (pes : PEntities) (hS : StoreCompletes σ pes es) (hC : Concretizes2 σ es preq req)
-    (p : Policy) (hf : Frag2 σ p.condition) (hsub : p.condition.substUnk σ = p.condition)
+theorem policyAgrees_of_sound (hctx : (Value.record req.context).Canon) (hstore : StoreCanon es)
+    (preq : PRequest) (pes : PEntities)
+    (p : Policy) (hS' : Sound2 σ req es p.env (Y σ req es p.env p.condition) (pinterp [] preq pes p.env defaultFuel p.condition))
+    (hsub : p.condition.substUnk σ = p.condition)
     (hslot : ∀ r, partialEvaluate [] preq pes p = .residual r → r.hasSlot = false)
     (hns2 : ∀ q, residualPolicy (partialEvaluate [] preq pes p) p = some q →
       partialEvaluate σ (.ofConcrete req) (.ofConcrete es) q ≠ .stuck)
     (hns1 : partialEvaluate [] preq pes p ≠ .stuck) :
     PolicyAgrees σ preq pes req es p := by
-  have hS' := pinterp_sound3 σ req es p.env hctx [] preq pes hS (MapLE.nil σ) hC defaultFuel p.condition hf
   have hY : Y σ req es p.env p.condition = evaluate req es p.env p.condition := by simp only [Y, hsub]
   rw [hY] at hS'
   have hout : p.outcome req es = outcomeOf (evaluate req es p.env p.condition) := outcome_eq p req es
@@ -226,12 +226,12 @@ theorem policyAgrees_of_frag3 (hctx : (Value.record req.context).Canon) (hstore 
 
 /-- what partial evaluation established about a policy of the fragment stays true for the completion: the hypothesis
     `Consistent` of `table_sound`, discharged -/
-theorem consistent_of_frag3 (hctx : (Value.record req.context).Canon)
-    (preq : PRequest) (pes : PEntities) (hS : StoreCompletes σ pes es) (hC : Concretizes2 σ es preq req)
-    (p : Policy) (hf : Frag2 σ p.condition) (hsub : p.condition.substUnk σ = p.condition)
+theorem consistent_of_sound
+    (preq : PRequest) (pes : PEntities)
+    (p : Policy) (hS' : Sound2 σ req es p.env (Y σ req es p.env p.condition) (pinterp [] preq pes p.env defaultFuel p.condition))
+    (hsub : p.condition.substUnk σ = p.condition)
     (hns1 : partialEvaluate [] preq pes p ≠ .stuck) :
     Consistent (partialEvaluate [] preq pes p) (p.outcome req es) := by
-  have hS' := pinterp_sound3 σ req es p.env hctx [] preq pes hS (MapLE.nil σ) hC defaultFuel p.condition hf
   have hY : Y σ req es p.env p.condition = evaluate req es p.env p.condition := by simp only [Y, hsub]
   rw [hY] at hS'
   have hout : p.outcome req es = outcomeOf (evaluate req es p.env p.condition) := outcome_eq p req es
@@ -333,6 +333,51 @@ theorem isAuthorized_reasons (id : String) :
     · rintro (⟨_, p, hp, rfl, he, hs⟩ | ⟨hnf, _⟩)
       · exact ⟨p, hp, rfl, he, hs⟩
       · exact (hnf hf).elim
+
+end
+
+section
+variable (σ : Mapper) (req : Request) (es : Entities)
+
+theorem policyAgrees_of_frag3 (hctx : (Value.record req.context).Canon) (hstore : StoreCanon es)
+    (preq : PRequest) (pes : PEntities) (hS : StoreCompletes σ pes es) (hC : Concretizes2 σ es preq req)
+    (p : Policy) (hf : Frag2 σ p.condition) (hsub : p.condition.substUnk σ = p.condition)
+    (hslot : ∀ r, partialEvaluate [] preq pes p = .residual r → r.hasSlot = false)
+    (hns2 : ∀ q, residualPolicy (partialEvaluate [] preq pes p) p = some q →
+      partialEvaluate σ (.ofConcrete req) (.ofConcrete es) q ≠ .stuck)
+    (hns1 : partialEvaluate [] preq pes p ≠ .stuck) :
+    PolicyAgrees σ preq pes req es p :=
+  policyAgrees_of_sound σ req es hctx hstore preq pes p
+    (pinterp_sound3 σ req es p.env hctx [] preq pes hS (MapLE.nil σ) hC defaultFuel p.condition hf) hsub hslot hns2 hns1
+
+theorem consistent_of_frag3 (hctx : (Value.record req.context).Canon)
+    (preq : PRequest) (pes : PEntities) (hS : StoreCompletes σ pes es) (hC : Concretizes2 σ es preq req)
+    (p : Policy) (hf : Frag2 σ p.condition) (hsub : p.condition.substUnk σ = p.condition)
+    (hns1 : partialEvaluate [] preq pes p ≠ .stuck) :
+    Consistent (partialEvaluate [] preq pes p) (p.outcome req es) :=
+  consistent_of_sound σ req es preq pes p
+    (pinterp_sound3 σ req es p.env hctx [] preq pes hS (MapLE.nil σ) hC defaultFuel p.condition hf) hsub hns1
+
+/-- the uids a policy SET can dereference in the first pass (empty mapper): per policy, `mentioned` with its slot environment -/
+def mentionedPolicies (preq : PRequest) (pes : PEntities) (ps : List Policy) : List EntityUID :=
+  ps.flatMap fun p => mentioned [] preq pes p.env p.condition
+
+theorem sound_of_mentioned (hctx : (Value.record req.context).Canon) (preq : PRequest) (pes : PEntities)
+    {U : EntityUID → Prop} (hS : StoreCompletesOn U σ pes es) (hC : Concretizes2 σ es preq req)
+    (p : Policy) (hU : ∀ u, u ∈ mentioned [] preq pes p.env p.condition → U u) (hf : Frag2 σ p.condition) :
+    Sound2 σ req es p.env (Y σ req es p.env p.condition) (pinterp [] preq pes p.env defaultFuel p.condition) := by
+  obtain ⟨h1, h2, h3, h4, h5⟩ := mentioned_closed [] preq pes p.env p.condition
+  have hS2 : StoreCompletesOn (fun u => u ∈ mentioned [] preq pes p.env p.condition) σ pes es := by
+    intro u
+    have := hS u
+    cases hfd : PEntities.find? pes.ents u with
+    | some d => rw [hfd] at this; exact this
+    | none =>
+      rw [hfd] at this
+      cases hp : pes.partialMode with
+      | false => simpa [hp] using this
+      | true => simp only [hp, if_true] at this ⊢; exact fun hu => this (hU u hu)
+  exact pinterp_sound3_on σ req es p.env hctx [] preq pes _ hS2 (MapLE.nil σ) hC h2 h3 h4 h5 defaultFuel p.condition hf h1
 
 end
 
